@@ -1091,7 +1091,8 @@ class C06(Prop):
                 out.append(Violation("no_permit_without_permit_vote", "not PERMIT", o, idx))
             if reached and not sp.criterion():
                 out.append(Violation("reached_only_if_criterion", f"{st[0]} criterion not met", o, idx))
-            if n >= 1 and len(sp.P) == n and n >= sp.min_voters and sp.attainable() and sp.supported() and not reached:
+            if sp.P and not sp.B and len(sp.P) >= sp.min_voters and (st[0] != "threshold" or len(sp.P) == n) \
+                    and sp.attainable() and sp.supported() and not reached:
                 out.append(Violation("unanimous_permit_is_permit", "PERMIT", o, idx))
         return out
 
